@@ -144,6 +144,9 @@ impl Prop for C03 {
     fn id(&self) -> &'static str {
         "C03"
     }
+    fn canary(&self) -> bool {
+        true
+    }
     fn rule(&self) -> String {
         "cases = conversations of 1-8 commands (QUERY, PREPARE ok/error, EXECUTE, INIT_DB and `USE` ok/error incl. a shim that keeps the trait's default on_init, PING, FIELD_LIST, SELECT @@ probes, CLOSE, SEND_LONG_DATA) with a sentinel PING after every command; every QUERY/EXECUTE carries a generated writer program (chains of 0-4 complete_one / finish_one units + terminal completed / finish / error / finish_error / dropped RowWriter / no_more_results / dropped QueryResultWriter; 0-300 columns; rows via write_row, write_col+end_row, or left open before finish); 1 in 5 cases adds one shape-contradicting row (too few / too many cells, NULL into NOT NULL, foreign type). Enumerated also: chains of 256 and 65536 (thorough: 255-257, 65535-65537, 131072) resultsets/completions and single resultsets of that many rows, in both protocols. Oracle: abstract interpreter of the program vs. reference response state machine. Non-trivial = some program has >= 2 result units, a drop terminal, an error after >= 1 row, a zero-column set with rows, or a contradicting row.".into()
     }
@@ -167,10 +170,12 @@ impl Prop for C03 {
         4096
     }
     fn gen(&self, g: &mut G<'_>, _tier: Tier) -> Case {
-        g.allow_offers = true;
+        // one kind of refusal per case: no refusable offers or short rows next to a shape contradiction
+        let want_contradiction = g.chance(1, 5);
+        g.allow_offers = !want_contradiction;
         let opts = ConvOpts { max_cmds: 8, max_rows: 6, sentinels: true, default_init_sometimes: true, quit_sometimes: true };
         let mut conv = gen_conv(g, &opts);
-        let contradiction = if g.chance(1, 5) { make_contradiction(g, &mut conv) } else { None };
+        let contradiction = if want_contradiction { make_contradiction(g, &mut conv) } else { None };
         conv.forget_on_refusal = contradiction.is_some();
         if contradiction.is_some() {
             // one kind of refusal per case: no refusable offers next to a shape contradiction
@@ -356,6 +361,9 @@ impl Prop for C03 {
             return ex;
         }
 
+        if case.conv.actions.iter().any(|a| matches!(a, Action::Result(p) if p.steps.iter().any(|s| matches!(s, Step::Set { rows, .. } if rows.iter().any(|r| r.form == RowForm::ShortEndRow))))) {
+            ex.class("short-row-ended-with-end_row");
+        }
         if o.failed_after_refused_offer && !o.result.is_panic() {
             // the library refused a contradicting write_col and then also what followed on the same
             // RowWriter: outside "every way ... that reports success"; nothing malformed may have
